@@ -322,7 +322,13 @@ func (to *TraceObserver) doStreaming() spanBatchSenderStatus {
 	log.Debugf("established stream to trace observer endpoint")
 	for {
 		select {
-		case msg := <-to.messages:
+		case msg, ok := <-to.messages:
+			if !ok {
+				// The queue was closed by closeMessages, which only
+				// happens once a shutdown was initiated.
+				log.Debugf("trace observer span queue closed, shutting down")
+				return spanBatchSenderStatus{code: statusShutdown}
+			}
 			// (the remaining capacity is owned by the producer goroutine
 			// and must not be read here)
 			log.Debugf("trace observer sending span batch of size %d, queue size %d",
